@@ -7235,6 +7235,15 @@ fn stream_yaml_string_value<Out: core::fmt::Write>(
     // For quoted strings, preserve the quoting style
     match s {
         YamlString::DoubleQuoted { .. } => stream_yaml_double_quoted(out, &str_val),
+        // A single-quoted scalar has no escapes, so a line break in its value
+        // cannot be written as itself: raw, it would be folded away on the
+        // next read (`'a\n\n\n  b'` is `a\n\nb`; echoing that value's two
+        // breaks between the quotes reads back as `a\nb`). Double quotes can
+        // spell it, which is also what the DOM writer falls back to
+        // (`can_single_quote` in `yq_runner.rs`).
+        YamlString::SingleQuoted { .. } if str_val.contains('\n') => {
+            stream_yaml_double_quoted(out, &str_val)
+        }
         YamlString::SingleQuoted { .. } => stream_yaml_single_quoted(out, &str_val),
         YamlString::Unquoted { .. } => {
             // #996: checked before the verbatim-echo fallback below,
@@ -8740,6 +8749,25 @@ mod tests {
             .stream_yaml_document(&mut out, IndentSpec::spaces(2), false)
             .unwrap();
         assert_eq!(out, "a: \"1\"\nb: 'true'\nc: \"hello\"");
+    }
+
+    #[test]
+    fn test_stream_yaml_single_quoted_value_with_line_breaks_reads_back_unchanged() {
+        // Three raw breaks fold to two, and a single-quoted scalar has no way
+        // to write those two without folding one of them away again.
+        let yaml = b"a: 'x\n\n\n  y'\nb: 'it''s'\n";
+        let index = YamlIndex::build(yaml).unwrap();
+        let mut out = String::new();
+        index
+            .root(yaml)
+            .stream_yaml_document(&mut out, IndentSpec::spaces(2), false)
+            .unwrap();
+        assert_eq!(out, "a: \"x\\n\\ny\"\nb: 'it''s'");
+        let reread = YamlIndex::build(out.as_bytes()).unwrap();
+        assert_eq!(
+            reread.root(out.as_bytes()).to_json_document(),
+            index.root(yaml).to_json_document()
+        );
     }
 
     #[test]
